@@ -325,7 +325,16 @@ func runC04(c *Ctx) {
 			}
 			return true
 		})
-		c.check(cnt >= 3, "index-count.entries-per-file-agree", ub.ID+":chunking", p.Pos(ub.Decl.Pos()), "UploadBundleEntries chunks by the shared constant", "UploadBundleEntries no longer chunks its entries by defaultBundleEntriesPerFile")
+		// the chunk size is the shared constant: it is what the loop steps by (however the loop is written), and no
+		// other integer literal greater than 1 sizes anything in the function
+		otherSize := false
+		ast.Inspect(ub.Decl.Body, func(nd ast.Node) bool {
+			if bl, ok := nd.(*ast.BasicLit); ok && bl.Kind == token.INT && bl.Value != "0" && bl.Value != "1" {
+				otherSize = true
+			}
+			return true
+		})
+		c.check(cnt >= 1 && !otherSize, "index-count.entries-per-file-agree", ub.ID+":chunking", p.Pos(ub.Decl.Pos()), "UploadBundleEntries chunks by the shared constant", "UploadBundleEntries no longer chunks its entries by defaultBundleEntriesPerFile")
 		_ = n
 	}
 	{
